@@ -51,6 +51,9 @@ type sequence struct {
 	cmds   []command
 	direct bool // run through the hooks with raw float64 weights instead of config text
 	noise  bool // text mode: other routes (another host, another path of the same host) around the commands
+	// text mode: the config text comes from somewhere else (class registration-weights: routecmd.build
+	// of consul registrations) and [cmds] says what it is meant to say about the observed route
+	override string
 }
 
 // nonFinite reports whether a weight of the sequence is NaN or +-Inf: since /repo 0b2a40e the
@@ -81,6 +84,9 @@ func contains(src, dst []string) bool {
 
 // text renders the sequence in fabio's config language.
 func (s *sequence) text() string {
+	if s.override != "" {
+		return s.override
+	}
 	var sb strings.Builder
 	if s.noise {
 		// routes the commands must not touch, and that must not touch the observed route
@@ -895,6 +901,11 @@ func main() {
 			s.cmds = append(s.cmds, command{kind: "weight", svc: "s0", wtext: w, w: pf(w)})
 			emit("float-edge-setweight", s, false)
 		}
+	}
+
+	// 9. weights written in consul registrations (registration.go; own random stream)
+	if !debugEdgeOnly {
+		registrationCases(run.Seed, run.Scale(60, 1500), emit)
 	}
 
 	finishListen()
